@@ -4,5 +4,6 @@ INVARIANT DepthOK
 PROPERTY AgreesWithDecl
 PROPERTY NoSilentClose
 PROPERTY CloseRule
+PROPERTY OpenRule
 ACTION_CONSTRAINT Emit
 CHECK_DEADLOCK FALSE
